@@ -1,5 +1,6 @@
 import GambitV.Model.Bulk
 import Driver.Proto
+import Driver.PyGenCmp
 namespace Driver.C05
 open GambitV Driver
 
@@ -38,7 +39,9 @@ def handle : List String → Option String
   | ["c05.chunks", n, size, real] => do
     let n ← n.toNat?
     let size ← size.toNat?
-    pure (expect (";".intercalate ((chunkSlices n size).map fun ab => s!"{ab.1},{ab.2}")) real)
+    let r := expect (";".intercalate ((chunkSlices n size).map fun ab => s!"{ab.1},{ab.2}")) real
+    if r != "ok" then pure r else
+    pure ((PyGen.chunks (n : Int) (size : Int) real).getD "ok")
   | ["c05.cond", n, i, j, real] => do
     pure (expect (toString (condensedIndex (← n.toNat?) (← i.toNat?) (← j.toNat?))) real)
   | _ => none
